@@ -26,7 +26,7 @@ import time
 import traceback
 
 ROOT = os.environ.get("VERIF_ROOT") or os.path.dirname(os.path.dirname(os.path.abspath(__file__)))
-REPO = "/repo"
+REPO = os.environ.get("VERIF_REPO", "/repo")   # the tree under test (override only for background runs on a snapshot)
 NPROC = int(os.environ.get("VERIF_NPROC", "16"))
 
 
